@@ -35,7 +35,7 @@ pub fn def() -> CheckDef {
             "the no-sharing baseline uses the public eval_node with an EvalContext whose duplicate table holds only the wild-card preload (counters raised so that nothing is evicted)",
             "hook events are coverage accounting only; verdicts are taken on returned sets",
         ],
-        cases: |t| if t == Tier::Quick { 2500 } else { 150_000 },
+        cases: |t| if t == Tier::Quick { 12_000 } else { 300_000 },
         needs: |t| {
             let m = if t == Tier::Quick { 1 } else { 30 };
             vec![
